@@ -211,6 +211,71 @@ func runC13(w *mc.Worker) {
 		})
 	})
 
+	// long numerals (direct and variable routes; the literal route too in the thorough tier)
+	w.Stage("long-numerals", "percentages with 25 / 400 / 20000 (thorough: 1000001) fractional digits and ratios with 30- and 1000-digit numerals: ParsePortionSpecific and the variable route (literal route in the thorough tier)", func() {
+		zeros := func(n int) string { return strings.Repeat("0", n) }
+		huge := 20000
+		if w.Tier == "thorough" {
+			huge = 1000001 // beyond the 10^6-digit limit of big.Rat.SetString (slow: minutes of GCD)
+		}
+		longs := []string{
+			"50." + zeros(25) + "%", "12." + zeros(399) + "5%", "50." + zeros(huge) + "%",
+			"1" + zeros(29) + "/4" + zeros(29), "3/" + "7" + zeros(999), zeros(40) + "1/" + zeros(40) + "3",
+		}
+		w.Outer("long-numerals/text", 0, func(o *mc.Explorer) {
+			i := o.Choose(len(longs))
+			text := longs[i]
+			if !w.Mine(fmt.Sprint("long", i)) {
+				return
+			}
+			w.Owned()
+			w.Inner(0, func(in *mc.Explorer) {
+				want := ref.PortionOfText(text)
+				label := fmt.Sprintf("%s...(%d characters)", text[:12], len(text))
+				var got *big.Rat
+				var err error
+				pmsg, where := guard(func() {
+					r, ie := interpreter.ParsePortionSpecific(text)
+					got = r
+					if ie != nil {
+						err = ie
+					}
+				})
+				w.Eval("long|"+label, true, "long-numeral")
+				switch {
+				case pmsg != "":
+					w.Violation("C13.panic:direct@"+where, "ParsePortionSpecific panicked on a long numeral: "+pmsg, 100, Case{Script: label})
+				case err != nil:
+					w.Violation("C13.rejected:direct:long", "ParsePortionSpecific rejected a portion text of the literal grammar with value in [0,1]: "+err.Error(), 100, Case{Script: label})
+				case got.Cmp(want) != 0:
+					w.Violation("C13.value:direct:long", "ParsePortionSpecific gave a wrong value for a long numeral", 100, Case{Script: label})
+				}
+				out := RunReal(varScript, map[string]string{"p": text, "t": "COIN 840"}, env.New(env.Exact, nil, nil), nil)
+				exp := new(big.Rat).Mul(want, big.NewRat(840, 1))
+				expA := new(big.Int).Div(exp.Num(), exp.Denom())
+				if out.Err != nil || out.Panic != "" {
+					w.Violation("C13.rejected:variable:long", "a long portion text was rejected as a portion variable: "+out.Class(), 100, Case{Script: label})
+				} else if g := credits(out.Postings)["a"]; g == nil && expA.Sign() != 0 || g != nil && g.Cmp(expA) != 0 && new(big.Int).Sub(g, expA).CmpAbs(big.NewInt(1)) > 0 {
+					w.Violation("C13.value:variable:long", "a long portion text used as a portion variable gave a wrong share", 100, Case{Script: label})
+				}
+				if w.Tier == "thorough" {
+					src := "send [COIN 840] ( source = @world destination = { " + text + " to @a remaining to @b } )\n"
+					var pr parsedT
+					pm, wh := guard(func() { pr = numscriptParse(src) })
+					if pm != "" {
+						w.Violation("C13.panic:literal@"+wh, "parsing a long portion literal panicked: "+pm, 100, Case{Script: label})
+					} else if len(pr.GetParsingErrors()) == 0 {
+						o2 := RunReal(pr, nil, env.New(env.Exact, nil, nil), nil)
+						if o2.Err != nil || o2.Panic != "" {
+							w.Violation("C13.rejected:literal:long", "a long portion literal was rejected: "+o2.Class(), 100, Case{Script: label})
+						}
+					}
+				}
+				w.Sample("long", Case{Script: label})
+			})
+		})
+	})
+
 	// (b) metadata round trip
 	type tv struct{ typ, lit, text string }
 	var vals []tv
